@@ -58,6 +58,7 @@ type c12Plan struct {
 	// code deposit cannot be paid, "toolarge", "revert", "invalid"), the endowment, whether the init code
 	// pays the sink, and the gas limit of the transaction.
 	FC      string `json:"fc,omitempty"`
+	FCTop   bool   `json:"fctop,omitempty"` // the creation is a contract-creation transaction, not an inner CREATE
 	FCValue uint64 `json:"fc_value,omitempty"`
 	FCPay   bool   `json:"fc_pay,omitempty"`
 	FCGas   uint64 `json:"fc_gas,omitempty"`
@@ -84,7 +85,7 @@ func (c12) Budget(tier string) runner.Budget {
 
 func (c12) Describe() runner.Description {
 	return runner.Description{
-		Rule:        "call-tree plans (85%): a seeded tree of 2..14 frames (depth <=5), each a deployed contract with effects (SSTORE of a per-frame slot, SSTORE / clearing of a slot shared by the storage context and committed non-empty beforehand, LOG1, 1-wei transfer to a sink, transfer of the whole balance to the sink (balance exactly 0), 1-wei payment to the root contract, CREATE of a 1-byte contract), children called by CALL / CALLCODE / DELEGATECALL / STATICCALL with full or limited gas, and an ending (RETURN, REVERT, INVALID, infinite loop, stack fault); the root gas limit is ample or starved at a seeded point. Every successful frame returns the bitmap of frames of its subtree whose effects must persist; the transaction runs through the real block executor. Oracle: final storage of every frame slot, the ordered receipt logs, sink and contract balances, contract nonces and the set of created accounts equal exactly the effects of the frames in the returned bitmap (failed frames and their subtrees contribute nothing); no frame inside a STATICCALL subtree that has effects may report success and nothing from such a subtree may persist; a failed root leaves the whole state as before except fee/nonce of the sender. Failed-creation plans (8%): a contract runs an inner CREATE (40%: CREATE2) whose init code stores, logs and optionally pays out of its endowment and then ends by returning 1 byte / 200000 bytes (code deposit unpayable at the lower gas limits) / 250000 bytes (over the size limit) / REVERT / INVALID; the creator records what CREATE pushed; if it reported failure no account, storage, balance or log of the creation frame may remain and the endowment is back with the creator. Stake-opcode plans (5%): a contract that is the account of a registered miner executes the node's STAKE / UNSTAKE / UNSTAKEALL opcode inside a STATICCALL (25%: plain CALL as control); its balance and the miner record must be unchanged afterwards; or a contract AUTHs itself with an externally owned account's signature and AUTHCALLs a sink with value inside a STATICCALL: the account's nonce and the sink's balance must be unchanged. Cross-transaction plans (15%): 2-4 identical-shaped transactions in one block, each TLOADs a slot, records it, TSTOREs, touches storage and logs: every transaction must read transient storage empty, pay the same gas (no warm access list inherited), and its receipt must carry exactly its own log; in half of them the transactions only warm ADDRESSES (account-access opcodes, an inner CREATE, a deployment transaction) and every probe transaction not first in the block must use exactly the gas it uses alone in a block on the same parent state. distinct_nontrivial = distinct tree shapes (kinds, endings, effects, gas shares) with at least one failing inner frame.",
+		Rule:        "call-tree plans (85%): a seeded tree of 2..14 frames (depth <=5), each a deployed contract with effects (SSTORE of a per-frame slot, SSTORE / clearing of a slot shared by the storage context and committed non-empty beforehand, LOG1, 1-wei transfer to a sink, transfer of the whole balance to the sink (balance exactly 0), 1-wei payment to the root contract, CREATE of a 1-byte contract), children called by CALL / CALLCODE / DELEGATECALL / STATICCALL with full or limited gas, and an ending (RETURN, REVERT, INVALID, infinite loop, stack fault); the root gas limit is ample or starved at a seeded point. Every successful frame returns the bitmap of frames of its subtree whose effects must persist; the transaction runs through the real block executor. Oracle: final storage of every frame slot, the ordered receipt logs, sink and contract balances, contract nonces and the set of created accounts equal exactly the effects of the frames in the returned bitmap (failed frames and their subtrees contribute nothing); no frame inside a STATICCALL subtree that has effects may report success and nothing from such a subtree may persist; a failed root leaves the whole state as before except fee/nonce of the sender. Failed-creation plans (8%): a contract runs an inner CREATE (40%: CREATE2) whose init code stores, logs and optionally pays out of its endowment and then ends by returning 1 byte / 200000 bytes (code deposit unpayable at the lower gas limits) / 250000 bytes (over the size limit) / REVERT / INVALID; the creator records what CREATE pushed; if it reported failure no account, storage, balance or log of the creation frame may remain and the endowment is back with the creator; in 30% of them the same init code is a contract-creation TRANSACTION: a failed one leaves no account and its receipt carries no log, a successful one has all effects. Stake-opcode plans (5%): a contract that is the account of a registered miner executes the node's STAKE / UNSTAKE / UNSTAKEALL opcode inside a STATICCALL (25%: plain CALL as control); its balance and the miner record must be unchanged afterwards; or a contract AUTHs itself with an externally owned account's signature and AUTHCALLs a sink with value inside a STATICCALL: the account's nonce and the sink's balance must be unchanged. Cross-transaction plans (15%): 2-4 identical-shaped transactions in one block, each TLOADs a slot, records it, TSTOREs, touches storage and logs: every transaction must read transient storage empty, pay the same gas (no warm access list inherited), and its receipt must carry exactly its own log; in half of them the transactions only warm ADDRESSES (account-access opcodes, an inner CREATE, a deployment transaction) and every probe transaction not first in the block must use exactly the gas it uses alone in a block on the same parent state. distinct_nontrivial = distinct tree shapes (kinds, endings, effects, gas shares) with at least one failing inner frame.",
 		Assumptions: []string{"frame effects use per-frame slots/topics so that every observed value is attributable to one frame", "SELFDESTRUCT only as the ending of a CALL-kind frame (its own contract), beneficiary a sink account"},
 		Real:        []string{"vm (EVM call/create/static handling, interpreter, gas)", "executor contract executor", "core/vmexecutor (Prepare, snapshot/revert, receipts)", "storage/account (journal, access list, transient storage, logs)"},
 		Stub:        []string{"ConsensusHelper", "network"},
@@ -107,6 +108,10 @@ func (c12) Gen(seed uint64, tier string) json.RawMessage {
 		p.FCPay = p.FCValue > 0 && r.Chance(0.5)
 		p.FCGas = []uint64{60000000, 60000000, 30000000, 12000000}[r.Intn(4)]
 		p.FC2 = r.Chance(0.4)
+		if r.Chance(0.3) {
+			// the creation is the transaction itself: its failure is rolled back by the block executor
+			p.FCTop, p.FC2, p.FCValue, p.FCPay = true, false, 0, false
+		}
 		b, _ := json.Marshal(p)
 		return b
 	}
@@ -893,6 +898,9 @@ func c12FailedCreate(p *c12Plan, ec *execChain, st *simrt.Stats, log *simrt.Log)
 	default:
 		init.Op(evmasm.INVALID)
 	}
+	if p.FCTop {
+		return c12FailedCreateTx(p, init, where, ec, st, log)
+	}
 	var f evmasm.Code
 	for off := 0; off < len(init); off += 32 {
 		chunk := make([]byte, 32)
@@ -988,6 +996,66 @@ func c12FailedCreate(p *c12Plan, ec *execChain, st *simrt.Stats, log *simrt.Log)
 		}
 	default:
 		return viol(0, "create-result-wrong", where, "CREATE pushed %x, neither 0 nor the address derived from creator and nonce (%s)", res.Bytes()[12:], created.GetHexString())
+	}
+	return nil
+}
+
+// c12FailedCreateTx: the same init code as a contract-creation transaction. A failed transaction's receipt
+// carries no log and nothing of the creation frame remains; a successful one has all of its effects.
+func c12FailedCreateTx(p *c12Plan, init evmasm.Code, where string, ec *execChain, st *simrt.Stats, log *simrt.Log) *simrt.Violation {
+	viol := func(ev int, clause, where, f string, a ...interface{}) *simrt.Violation {
+		return simrt.Violationf("C12", clause, where, ev, f, a...)
+	}
+	common.SetBlockHeight(ec.height)
+	pre := ec.state()
+	sender := common.HexToAddress(node.Account(0))
+	n0 := pre.GetNonce(sender)
+	sinkBefore := pre.GetBalance(c12Sink)
+	st.Fault("creation_tx_" + p.FC)
+	tx := node.TxSpec{K: "create", From: 0, Data: hex.EncodeToString(init), Gas: p.FCGas, Salt: fmt.Sprintf("c12fct-%d", p.Seed)}.Build()
+	receipts, _, _, _ := ec.execBlock(ec.height+1, []*types.Transaction{tx}, true)
+	if len(receipts) != 1 {
+		return viol(0, "no-receipt", "failed-creation", "%d receipts for 1 transaction", len(receipts))
+	}
+	rc := receipts[0]
+	post := ec.state()
+	slot1 := common.BigToHash(big.NewInt(1))
+	existsAt := func(a common.Address) bool {
+		return post.GetNonce(a) != 0 || len(post.GetCode(a)) > 0 || post.GetState(a, slot1) != (common.Hash{}) || post.GetBalance(a).Sign() != 0
+	}
+	st.State(simrt.HashString(fmt.Sprintf("fct|%s|%d|%v", p.FC, p.FCGas, rc.Status)))
+	st.Nontrivial(simrt.HashString(fmt.Sprintf("fct|%s|%d", p.FC, p.FCGas)))
+	log.Add("fctop=%s gas=%d status=%d logs=%d contract=%s msg=%.60s", p.FC, p.FCGas, rc.Status, len(rc.Logs), rc.ContractAddress.GetHexString(), rc.Msg)
+	if rc.Status != types.ReceiptStatusSuccessful {
+		st.Probe("creation_tx_failed")
+		var left []string
+		for d := uint64(0); d < 3; d++ {
+			if n0+d >= 1 {
+				if a := createAddress(sender, n0+d-1); existsAt(a) {
+					left = append(left, a.GetHexString())
+				}
+			}
+		}
+		if len(left) > 0 || len(rc.Logs) != 0 || post.GetBalance(c12Sink).Cmp(sinkBefore) != 0 {
+			return viol(0, "failed-transaction-left-trace", "creation-tx/"+where, "the creation transaction failed (%s) but left a trace: accounts %v, %d logs in its receipt, sink +%s", rc.Msg, left, len(rc.Logs), new(big.Int).Sub(post.GetBalance(c12Sink), sinkBefore))
+		}
+		return nil
+	}
+	st.Probe("creation_tx_succeeded")
+	if p.FC != "small" && p.FC != "big" {
+		return viol(0, "creation-succeeded-unexpectedly", "creation-tx/"+where, "the creation transaction succeeded although the init code ended with %s", p.FC)
+	}
+	created := rc.ContractAddress
+	initLog := false
+	for _, l := range rc.Logs {
+		if len(l.Topics) == 1 && l.Topics[0] == common.BigToHash(big.NewInt(0xC0DE)) && l.Address == created {
+			initLog = true
+		}
+	}
+	want := map[string]int{"small": 1, "big": 200000}[p.FC]
+	if !initLog || len(rc.Logs) != 1 || post.GetState(created, slot1) != common.BigToHash(big.NewInt(0x55)) || len(post.GetCode(created)) != want {
+		return viol(0, "successful-creation-incomplete", "creation-tx/"+where, "the creation transaction succeeded but account %s has %d bytes of code (returned %d), slot 1 = %x, %d logs in the receipt (init-code log: %v)",
+			created.GetHexString(), len(post.GetCode(created)), want, post.GetState(created, slot1).Bytes()[31:], len(rc.Logs), initLog)
 	}
 	return nil
 }
